@@ -90,7 +90,7 @@ def dictionary(ctx, F, R="R-TABLE"):
                     % (fn, [(c.fn or "").rsplit("::", 1)[-1] for c in prim], [(c.fn or "").rsplit("::", 1)[-1] for c in others]))
     for fn in ("Dictionary::has_type", "Dictionary::get_type"):
         b = F.fn(fn)
-        keys = set(filter(None, (lib._const_bytes_through(b2, c.args[1]) for b2 in F.with_closures(b) for c in b2.calls if c.local and c.cname.endswith("Dictionary::get"))))
+        keys = set(filter(None, (lib._const_bytes_through(b2, c.args[1]) for b2 in F.with_closures(b) for c in b2.calls if c.local and re.search(r"Dictionary::(get|has|get_deref|get_mut|has_type)$", c.cname) and len(c.args) > 1)))
         want = {b"Type"} if fn.endswith("has_type") else {b"Type", b"Linearized"}
         ctx.ob(R, "dictionary-type|%s" % fn, keys == want or (fn.endswith("get_type") and b"Type" in keys and keys <= want), "%s reads %s" % (fn, sorted(keys)), b.where(),
                what="%s reads the entries %s instead of Type" % (fn, sorted(keys)))
